@@ -1059,6 +1059,31 @@ func (n *c18Node) exec1(op c18Op, hook C18PruneHook) (res string, b, c int64) {
 		}
 		n.state = st
 		b, c = ch.model(st.LastHeightValidatorsChanged), ch.model(st.LastHeightConsensusParamsChanged)
+	case "Recover":
+		// restart after a crash between the application's Commit of block h and stateStore.Save
+		h := op.A + off
+		b, c = ch.model(ch.states[h].LastHeightValidatorsChanged), ch.model(ch.states[h].LastHeightConsensusParamsChanged)
+		if C18Recover == nil {
+			blk := ch.blocks[h]
+			st, _, err := n.exec.ApplyBlock(n.state, types.BlockID{Hash: blk.Hash(), PartSetHeader: ch.parts[h].Header()}, blk)
+			if err != nil {
+				res = "err"
+				return
+			}
+			n.state = st
+		} else {
+			if err := C18Recover(n.bs, n.ss, n.state, ch.genDoc, n.pa, h, []byte("c18-app-hash")); err != nil {
+				res = "err"
+				return
+			}
+			st, err := n.ss.Load()
+			if err != nil || st.IsEmpty() {
+				res = "err"
+				return
+			}
+			n.state = st
+		}
+		b, c = ch.model(n.state.LastHeightValidatorsChanged), ch.model(n.state.LastHeightConsensusParamsChanged)
 	case "PruneBlocks":
 		if _, err := n.bs.PruneBlocks(op.A + off); err != nil {
 			res = "err"
@@ -1115,6 +1140,16 @@ func c18ApplyEntry(bdb, sdb *dbm.MemDB, e c18Entry) {
 // C18PruneHook lets a driver in another package replace "PruneBlocks then PruneStates" by the
 // production call that does both (consensus.State.pruneBlocks).
 type C18PruneHook func(bs *BlockStore, exec *sm.BlockExecutor, retain int64) error
+
+// C18RecoverHook is the restart path of a node whose application has committed block appHeight
+// while the state store still is one block behind (crash between the app's Commit and
+// stateStore.Save): consensus.Handshaker.ReplayBlocks, which re-applies the stored block
+// through a mock application answering from the persisted ABCI responses.  Set by the driver
+// in package consensus; without it "Recover" re-applies the block with the real application.
+type C18RecoverHook func(bs *BlockStore, ss sm.Store, state sm.State, genDoc *types.GenesisDoc,
+	pa proxy.AppConns, appHeight int64, appHash []byte) error
+
+var C18Recover C18RecoverHook
 
 type c18Runner struct {
 	logf   func(format string, args ...interface{})
@@ -1413,6 +1448,10 @@ func c18RandomNext(rng *rand.Rand, cfg c18Cfg, cons bool) func(n *c18Node) *c18O
 			return &c18Op{Op: "SaveBlock", A: next, Crash: crash()}
 		}
 		if height == next {
+			if _, err := n.ss.LoadLastABCIResponse(next + ch.cfg.Offset); err == nil && cons {
+				// the responses of this block are persisted: the application may have committed it
+				return &c18Op{Op: "Recover", A: next, Crash: crash()}
+			}
 			return &c18Op{Op: "ApplyBlock", A: next, Crash: crash()}
 		}
 		// synced
